@@ -306,7 +306,9 @@ def locality_jobs(tier):
         for frm, mod in SRC.items():
             if frm == 'c12':
                 continue
-            js = mod.jobs(tier)
+            # thorough: every quick-tier skeleton of the family (quick: every 4th); the families' own thorough lists are far too
+            # large to run five more times here
+            js = mod.jobs('quick')
             for i, j in enumerate(js):
                 sp = j['spec']
                 if opt in FEATURES and FEATURES[opt](frm, sp):
@@ -354,7 +356,7 @@ def main(argv):
     import importlib
     elements.triage(rep, PROP, importlib.import_module(MOD), raw, classify)
     rep.bounds = {'config_object': 'up to 2 (quick) / 3 (thorough) keys, each a fully symbolic printable-ASCII string of every length a documented key has plus lengths 1,5,9,12; boolean values symbolic',
-                  'locality': 'every 4th (quick) / every (thorough) skeleton of the C01/C03/C04/C05/C13 spaces that does not use the governed feature, run with the option off and on'}
+                  'locality': 'every 4th (quick) / every (thorough) quick-tier skeleton of the C01/C03/C04/C05/C13 spaces that does not use the governed feature, run with the option off and on'}
     rep.assumptions = ['serde_json (text -> MapAccess calls) and the wasm plugin entry are outside: kernel B starts at the serde-derived visitor of Options, which is in the crate MIR',
                        'JSON object keys are pairwise distinct', 'invalid regex rejection lives in the regex crate (outside)']
     rep.notes.append('the JSON-text half of the statement (spellings accepted by serde_json, invalid pattern rejection) is not decided; see DESIGN.md')
